@@ -184,6 +184,16 @@ def _check_sig(spec, stats):
             raise Violation(f"C20/sig-ne/{cls}", f"{x!r} != {y!r} inconsistent, parameters {kx} vs {ky}")
     if not (sa == sa):
         raise Violation(f"C20/sig-eq-self/{cls}", f"{sa!r} != itself")
+    # copies carry the same defining parameters (and a signature that was flipped twice, used to
+    # create interfaces, or asked for its members is still the same signature)
+    import copy
+    for how, c in (("copy.copy", copy.copy(sa)), ("copy.deepcopy", copy.deepcopy(sa)), ("flip().flip()", sa.flip().flip())):
+        if not (c == sa) or not (sa == c) or (c != sa):
+            raise Violation(f"C20/sig-eq-copy/{cls}", f"{how} of {sa!r} does not compare equal to the original (parameters {ka})")
+        if bool(c == sb) != same:
+            raise Violation(f"C20/sig-eq-copy/{cls}", f"{how} of {sa!r} == {sb!r} is {c == sb}, parameters {ka} vs {kb}")
+        if {n: (m.flow, Shape.cast(m.shape).width) for n, m in c.members.items()} != _expect_members(cls, ka):
+            raise Violation(f"C20/members/{cls}", f"{how} of {sa!r} has other members than the parameters {ka} imply")
     for s, k in ((sa, ka), (sb, kb)):
         iface = s.create()
         if not (iface.signature == s) or not (s == iface.signature):
